@@ -15,7 +15,7 @@ import (
 func init() {
 	registerEngine("MP", []string{"M1", "P1", "P2"}, runEngineMP)
 	registerEngine("Q", []string{"Q1", "Q2", "Q3"}, runEngineQ)
-	registerEngine("S", []string{"S1", "S2"}, runEngineS)
+	registerEngine("S", []string{"S1", "S2", "S3"}, runEngineS)
 }
 
 // ---- M1 / P2 ------------------------------------------------------------------------------------------------------
@@ -742,6 +742,69 @@ func runEngineS(p *Prog, o *obls) {
 				if ek != "github.com/pion/rtcp.Packet" && ek != "fixtures/fx.sPkt" {
 					continue
 				}
+				// ---- S3: each packet of the compound is judged by itself — no branch on an SSRC decision carried over
+				// from a previous iteration
+				{
+					var stale []string
+					for _, in := range l.Header.Instrs {
+						phi, ok := in.(*ssa.Phi)
+						if !ok {
+							continue
+						}
+						if b, ok := phi.Type().Underlying().(*types.Basic); !ok || b.Kind() != types.Bool {
+							continue
+						}
+						fromSSRC := false
+						isSSRC := func(v ssa.Value) bool { return loadOfField(p, v, ss.ssrc) }
+						for i, e := range phi.Edges {
+							if !l.Blocks[l.Header.Preds[i]] {
+								continue
+							}
+							if p.backwardReaches(e, isSSRC) {
+								fromSSRC = true
+							}
+							// a flag set to a constant under an SSRC test (control dependence)
+							pdomS := postDominators(fn)
+							seenP := map[ssa.Value]bool{}
+							var web func(v ssa.Value)
+							web = func(v ssa.Value) {
+								if seenP[v] {
+									return
+								}
+								seenP[v] = true
+								ph, ok := v.(*ssa.Phi)
+								if !ok || ph == phi {
+									return
+								}
+								for k, e2 := range ph.Edges {
+									if _, isC := e2.(*ssa.Const); isC {
+										for cb := range transitiveControlDeps(fn, pdomS, ph.Block().Preds[k]) {
+											if c := ifCond(cb); c != nil && l.Blocks[cb] && p.backwardReaches(c, isSSRC) {
+												fromSSRC = true
+											}
+										}
+									}
+									web(e2)
+								}
+							}
+							web(e)
+						}
+						if !fromSSRC {
+							continue
+						}
+						for b := range l.Blocks {
+							if c := ifCond(b); c != nil && viaPhisOnly(p, c, phi) {
+								stale = append(stale, fmt.Sprintf("the branch at %s tests %s, an SSRC decision that may have been made for a previous packet of the compound", p.instrPos(b.Instrs[len(b.Instrs)-1]), phi.Comment))
+							}
+						}
+					}
+					k3 := funcKey(fn) + ":per-packet-decision"
+					if len(stale) > 0 {
+						o.bad("S3", k3, p.Pos(fn.Pos()), strings.Join(dedupe(stale), "; "))
+					} else {
+						o.ok("S3", k3, p.Pos(fn.Pos()), "no branch in the compound loop tests a loop-carried SSRC decision")
+					}
+				}
 				key := funcKey(fn) + ":compound-loop"
 				if len(l.Exits) > 0 {
 					e := l.Exits[0]
@@ -768,4 +831,30 @@ func throughStatsStruct(addr ssa.Value, pkgRel string) bool {
 		addr = fa.X
 	}
 	return false
+}
+
+// viaPhisOnly: v is the loop-carried φ itself, or a φ merging it unchanged on some path (the variable was not
+// re-assigned on that path of the current iteration).
+func viaPhisOnly(p *Prog, v ssa.Value, target *ssa.Phi) bool {
+	seen := map[ssa.Value]bool{}
+	var walk func(v ssa.Value) bool
+	walk = func(v ssa.Value) bool {
+		v = p.origin(v)
+		if v == ssa.Value(target) {
+			return true
+		}
+		if seen[v] {
+			return false
+		}
+		seen[v] = true
+		if ph, ok := v.(*ssa.Phi); ok {
+			for _, e := range ph.Edges {
+				if walk(e) {
+					return true
+				}
+			}
+		}
+		return false
+	}
+	return walk(v)
 }
